@@ -527,6 +527,13 @@ func (rm *relayManager) handleCreateRelayRequest(v cert.Version, h *HostInfo, f 
 		if !rm.GetAmRelay() {
 			return
 		}
+		// A peer may only ask for a relay on its own behalf. Relay state is keyed by the
+		// requested source address, so honoring a source that is not the authenticated
+		// requester would let one peer rewire the relays of another.
+		if !slices.Contains(h.vpnAddrs, from) {
+			logMsg.Error("Discarding relay request, source address does not belong to the requesting peer")
+			return
+		}
 		peer := rm.hostmap.QueryVpnAddr(target)
 		if peer == nil {
 			// Try to establish a connection to this host. If we get a future relay request,
